@@ -85,6 +85,18 @@ type LimitV struct {
 }
 type OpaqueV struct{ Kind string; Ref int }
 
+// an RC4 cipher: keystream as an uninterpreted byte array per key, and the position in it
+type CipherV struct {
+	KS  *Term
+	Pos *Term
+}
+
+// a math/big integer as an opaque algebraic value
+type BigV struct {
+	Key   string // identity: "bytes:<arr id>:<off id>", "exp(<base>,<exp>)", "const:..."
+	Bytes *Term  // 96-byte big-endian form (array), nil if never materialised
+}
+
 // output side of a bufio.Writer / bytes.Buffer pair: everything written, in order
 type WriterV struct {
 	A     *Term
